@@ -339,6 +339,11 @@ def run(pid, tier, seed):
         return chk.finish(extra_assumptions=ASSUME)
     if pid == "C08":
         run_c08(chk, seed, tier)
+        # "all parties report identical public material after DKG" under delivery schedules without per-link FIFO (a party's
+        # de-commitment overtaking its commitment, a share arriving after the commitments, random orders, with and without a
+        # deviating participant): the backend-level DKG harness of the dkg engine, TPS instances
+        from checks import dkg as dkg_engine
+        dkg_engine.run_ps_dkg_schedules(chk, tier, seed)
     else:
         run_c09(chk, seed, tier)
     return chk.finish(extra_assumptions=ASSUME)
